@@ -145,6 +145,19 @@ PROPS = {
         "rule": "8 client goroutines with own storages running 200-op scripts concurrently (workers 1..64, both commits, ledger jitter, GOMAXPROCS 2/8/16) vs alone; parallel preload 1..64 workers vs sequential; the same stream again in a -race build; child processes running 8-worker commits/preloads that FAIL midway (ledger fault at call 0..3, corrupted register) with slow encoders - a crash of the child is a violation",
         "explanation": "Theorems about the message-passing model of the worker pools: pool_results_perm, pool_results_bounded (result channel never over capacity), pool_terminates, parallel_commit_sequential_equal, parallel_preload_sequential_equal. Oracle: results equal to sequential/alone runs; zero race-detector reports.",
     },
+    "C17": {
+    "streams": ["batch"], "driver": {"batch": "batch"}, "level": "proof",
+    "trusted_base": LEAN_TB,
+    "assumptions": [
+        "values are the harness's plain values (hx.TV) of any size >= 1 (larger than the inline limit: externalised by the caller's Storable, modelled by toStorable / toStorableLim); the byte element type is the harness's BV (3 or 4 encoded bytes), whose Storable() returns the value itself",
+        "map keys carry their digest vector (hashing not modelled); keys fit the inline key limit",
+        "inlined copy sources: the model applies ArrayDataSlab.Inline / MapDataSlab.Inline's size re-basing to the standalone source (OP ainline/minline) and the harness dumps the real inlined slab for comparison; nested containers as elements are checked by the model-free oracle only",
+        "batch_map_content gives the pairs of the result as a permutation of the input (plus key distinctness and the map invariant, whose digest-order clauses fix the order up to full collisions); exact order is proved for streams without first-level collisions (batch_map_content_nocollision) and checked by the correspondence for all streams",
+        "NewArrayFromBatchData does not check maxArrayElementCount; batch_array_inv assumes at most 2^32-1 input values",
+    ],
+    "rule": "per program (threshold in {256,512,1024,32768,257,511,random}): ~70 array builds (lengths 0..6000 (9000 at one mid threshold, 40000 in the thorough tier), 8 size profiles, uniform streams at the critical lengths k*j+r that leave an underfull/full last data slab and last index slab at every level, merge-prone streams), 30 map builds from source maps (real digester and 5 collision tables) + 12 rejected streams (unsorted, duplicates adjacent / in group / far away, reversed, seed 0), 22 array and 18 map copy scenarios (plain, with references, multi-slab, empty, full, inlined, nested), 13 byte conversions; every OBS/EFF/SLB/FULL line compared with the model; distinct = distinct (threshold, profile, length) builds",
+    "explanation": "Theorems: batch_array_content / _inv / _ids_fresh, batch_map_* (content, seed/count/order, rejects unsorted / duplicates / seed 0, loop accepts every valid stream, batch_map_inv), can_copy_iff, copy_succeeds_when_offered (iff), copy_content_eq, copy_size_rebased, copy_inv, result_ids_fresh, bytes_roundtrip. Oracles on the implementation: content read back by iteration, VerifyArray/VerifyMap + Verify*Serialization, CheckStorageHealth with the exact root count, disjoint slab-ID sets, mutate-one-check-other (dump and content), copy offered iff single slab of plain values and then succeeds.",
+},
     "C18": {
         "streams": ["array", "mapcollide", "callbackfail"], "driver": {"array": "array", "mapcollide": "map"}, "level": "proof",
         "trusted_base": LEAN_TB, "assumptions": ARRAY_ASSUME + [
